@@ -258,9 +258,28 @@ class Sym:
 
     # ------------------------------------------------------------------ fixpoint (acyclic + loop havoc)
     def run(self):
+        """single forward pass (acyclic + loop havoc), repeated while new loop-invariant templates are proved: a template whose variables
+        are assigned in a loop gets a probe atom at the loop head; if every back edge carries the probe atom unchanged the loop preserves the
+        template (induction) and the next pass lets the value from before the loop through."""
+        self._tmpl_invariant: Set[Tuple[str, int]] = getattr(self, "_tmpl_invariant", set())
+        for _ in range(6):
+            probes, back_vals = self._pass()
+            new = set()
+            for (tn, nid), atom in probes.items():
+                vals = back_vals.get((tn, nid), [])
+                if vals and all(v is not None and A.equal(v, atom) for v in vals):
+                    new.add((tn, nid))
+            if not new - self._tmpl_invariant:
+                break
+            self._tmpl_invariant |= new
+        return self
+
+    def _pass(self):
         cfg = self.cfg
         order = cfg.rpo()
         pos = {k: i for i, k in enumerate(order)}
+        self.state_in = {}
+        probes: Dict[Tuple[str, int], Poly] = {}
         init = SymState()
         for tn, coefs in self.templates.items():
             t: Poly = {}
@@ -283,7 +302,17 @@ class Sym:
                     continue
                 st = self._join(incoming, nid)
                 if back or nid in self._loop_assigned:
-                    self._havoc(st, self._loop_assigned.get(nid, set()), nid)
+                    fwd = dict(st.tmpl)
+                    names = self._loop_assigned.get(nid, set())
+                    self._havoc(st, names, nid)
+                    for tn, coefs in self.templates.items():
+                        if any(v in names for v in coefs):
+                            if (tn, nid) in self._tmpl_invariant:
+                                st.tmpl[tn] = fwd.get(tn)
+                            elif fwd.get(tn) is not None:
+                                atom = A.atom(f"{tn}@loop{nid}")
+                                probes[(tn, nid)] = atom
+                                st.tmpl[tn] = atom
                 self.state_in[nid] = st
             for tn, at in self.reset_at.items():
                 if at == nid:
@@ -300,7 +329,19 @@ class Sym:
                 key = l if (n.kind in ("test", "for")) else None
                 if key in outs:
                     edge_states[(nid, t, l)] = outs[key]
-        return self
+        back_vals: Dict[Tuple[str, int], List[Optional[Poly]]] = {}
+        for (tn, nid) in probes:
+            for p, l in cfg.nodes[nid].preds:
+                if pos.get(p, -1) >= pos[nid] and (p, nid, l) in edge_states:
+                    back_vals.setdefault((tn, nid), []).append(edge_states[(p, nid, l)].tmpl.get(tn))
+        # a template still carrying a probe atom is unknown to the outside
+        if probes:
+            unproved = {A.text(a) for k, a in probes.items() if k not in self._tmpl_invariant}
+            for st in self.state_in.values():
+                for tn, v in list(st.tmpl.items()):
+                    if v is not None and any(x in unproved for m in v for x, _ in m):
+                        st.tmpl[tn] = UNKNOWN
+        return probes, back_vals
 
     def _havoc(self, st: SymState, names: Set[str], nid: int):
         for k in names:
